@@ -105,6 +105,10 @@ def classify(sc, j, mem, red):
                 if not hist(o):
                     continue
                 ao = outkv(a)
+                if ao.get("sup") == "idem":
+                    # an idempotency-suppressed publish reports the CACHED result (possibly an older epoch):
+                    # it neither stores anything nor tells the stream's current epoch
+                    continue
                 if ao.get("ep") != ep:
                     mem_v, ideal, actual, ep = None, None, None, ao.get("ep")
                 if ao.get("sup") != "none":
